@@ -412,3 +412,225 @@ def comb_program(cls, ic, tier, outs_io, only=None):
         m = CombProg(ic, frags, outs_io)
         return m, m.info()
     return mk, frags
+
+
+# =====================================================================================================================
+# sequential grammar programs (q.*) and Memory programs (m.*): explored as a product machine (c01_lib.explore)
+# =====================================================================================================================
+from migen.fhdl.specials import Memory, READ_FIRST, WRITE_FIRST, NO_CHANGE
+import itertools
+
+
+def _sres(t, reset):
+    w, sg = t
+    if sg and reset >> (w - 1):
+        reset -= 1 << w
+    return reset
+
+
+class SeqProg(Module):
+    """kind selects the statements; ic = (wa, sa, wb, sb) the two data inputs; en = 1-bit enable."""
+    def __init__(self, kind, ic, outs_io=False):
+        wa, sa, wb, sb = ic
+        two = kind == "twoclk"
+        self.clock_domains.cd_sys = ClockDomain("sys", reset_less=(kind == "rstless"))
+        self.cds = [self.cd_sys]
+        if two:
+            self.clock_domains.cd_b = ClockDomain("b")
+            self.cds.append(self.cd_b)
+        self.a = a = Signal((wa, sa), name="a")
+        self.b = b = Signal((wb, sb), name="b")
+        self.en = en = Signal(name="en")
+        self.regs = []
+        self._n = 0
+        self.outs_io = outs_io or kind == "portinit"
+        R = self.reg
+        sync = self.sync
+        if kind in ("ff", "portinit", "rstless"):
+            exprs = [a + b, a - b, Cat(a, b), a[0:2] if wa >= 2 else a[0], Mux(en, a, b), a < b, -a, a + (-3), (a + b) >> 1, ~b,
+                     a * b, b[wb - 1]]
+            for i, e in enumerate(exprs):
+                for t, rv in (((5, True), 0b10110), ((8, False), 0xA5), ((3, False), 0)):
+                    sync += R(t, rv).eq(e)
+            r = R((4, False), 9, reset_less=True)
+            sync += If(en, r.eq(a))
+        elif kind == "hold":
+            r1 = R((5, True), 0b11101); r2 = R((5, False), 7); r3 = R((4, False), 2, reset_less=True); r4 = R((4, True), 0)
+            r5 = R((6, False), 33); r6 = R((3, True), 0b101)
+            sync += [
+                If(en, r1.eq(a)).Elif(b[0], r1.eq(b)).Else(r1.eq(r1 + 1)),
+                If(a == b, r2.eq(a + b)),
+                If(en & ~a[0], r3.eq(b)),
+                Case(a, {0: r4.eq(b), 1: r4.eq(-1), -1: r4.eq(r4 - 1), "default": If(en, r4.eq(a))}),
+                Case(Cat(en, b[0]), {0: r5[0:3].eq(a), 1: r5[3:6].eq(b), 3: r5.eq(0)}),
+                r6.eq(Mux(en, r6, a)),
+            ]
+        elif kind == "acc":
+            r1 = R((3, False), 1); r2 = R((4, True), 0b1000); r3 = R((3, False), 0); r4 = R((2, False), 3)
+            sync += [
+                If(en, r1.eq(r1 + a)),
+                r2.eq(r2 - b),
+                If(r3 == 5, r3.eq(0)).Else(r3.eq(r3 + 1)),
+                If(r1 > r3, r4.eq(r4 - 1)),
+            ]
+        elif kind == "chain":
+            r1 = R((3, sa), 1); r2 = R((3, sa), 2); r3 = R((5, True), 3); x = R((2, False), 1); y = R((2, False), 2)
+            sync += [r1.eq(a), r2.eq(r1), r3.eq(r2 + r1), x.eq(y), If(en, y.eq(x)).Else(y.eq(a))]
+        elif kind == "lhs":
+            r1 = R((6, False), 0b101010); r2 = R((3, True), 0); r3 = R((3, False), 7); arr = [R((3, False), i) for i in range(3)]
+            r4 = R((8, True), 0x81)
+            sync += [
+                r1[0:2].eq(a), If(en, r1[2:5].eq(b)), r1[5].eq(a[0] ^ r1[5]),
+                Cat(r2, r3).eq(a + b),
+                Array(arr)[b[0:2] if wb >= 2 else b[0]].eq(a),
+                If(en, Cat(r4[0:3], r4[5:8]).eq(Cat(b, a))),
+            ]
+        elif kind == "twoclk":
+            ra = R((4, False), 1); rc = R((4, True), 2)
+            rb = R((4, False), 3, cd="b"); rd = R((5, True), 0b10000, cd="b")
+            self.sync.sys += [ra.eq(a + rb), If(en, rc.eq(rd))]
+            self.sync.b += [rb.eq(ra + b), rd.eq(rd + a)]
+            w = Signal(4, name="w")
+            self.comb += w.eq(ra ^ rb)
+            self.regs.append(("w", w))
+        else:
+            raise ValueError(kind)
+
+    def reg(self, t, reset=0, reset_less=False, cd="sys"):
+        self._n += 1
+        s = Signal(t, name=f"r{self._n}", reset=_sres(t, reset), reset_less=reset_less)
+        self.regs.append((f"r{self._n}", s))
+        return s
+
+    def info(self):
+        inputs = [self.a, self.b, self.en]
+        menus = [list(range(1 << len(self.a))), list(range(1 << len(self.b))), [0, 1]]
+        ios = set(inputs)
+        for cd in self.cds:
+            ios.add(cd.clk)
+            if cd.rst is not None:
+                ios.add(cd.rst)
+                inputs.append(cd.rst)
+                menus.append([0, 1])
+        if self.outs_io:
+            ios |= {s for _, s in self.regs}
+        return dict(ios=ios, clocks=tuple(cd.name for cd in self.cds), clock_domains=list(self.cds), inputs=inputs,
+                    menus=menus, observe=list(self.regs), memories=[])
+
+
+SEQ_KINDS = ["ff", "hold", "acc", "chain", "lhs", "twoclk", "rstless", "portinit"]
+
+
+def seq_icfgs(kind, tier):
+    if kind == "twoclk":
+        return [(2, False, 2, False), (2, True, 2, False)] if tier == "thorough" else [(2, True, 2, False)]
+    base = [(3, False, 3, False), (3, True, 3, True), (3, False, 3, True), (3, True, 3, False)]
+    if kind in ("portinit", "rstless", "acc", "chain"):
+        return base[1:2] if tier == "quick" else base[:2]
+    return base if tier == "thorough" else base[1:3]
+
+
+def seq_program(kind, ic):
+    def mk():
+        m = SeqProg(kind, ic)
+        return m, m.info()
+    return mk
+
+
+# ---- memories ---------------------------------------------------------------------------------------------------------
+MODES = {"wf": WRITE_FIRST, "rf": READ_FIRST, "nc": NO_CHANGE}
+
+
+class MemProg(Module):
+    """variant = dict(ports=..., mode, gran, re, init, width, depth)"""
+    def __init__(self, v):
+        self.v = v
+        two = v["ports"] == "2clk"
+        self.clock_domains.cd_sys = ClockDomain("sys")
+        self.cds = [self.cd_sys]
+        if two:
+            self.clock_domains.cd_b = ClockDomain("b")
+            self.cds.append(self.cd_b)
+        width, depth = v.get("width", 8), v["depth"]
+        init = {"none": None, "short": [0x12, 0x34][:max(1, depth // 2)], "full": [(0x11 * (i + 1)) & (2**width - 1) for i in range(depth)]}[v["init"]]
+        if init is not None:
+            init = [x & (2**width - 1) for x in init]
+        self.mem = mem = Memory(width, depth, init=init, name="mem")
+        self.specials += mem
+        self.inputs = []
+        self.menus = []
+        self.obs = []
+        dvals = [0xA5 & (2**width - 1), 0x3C & (2**width - 1)]
+        amenu = list(range(depth))
+
+        def inp(name, w, menu):
+            s = Signal(w, name=name)
+            self.inputs.append(s)
+            self.menus.append(menu)
+            return s
+
+        def out(name, sig):
+            self.obs.append((name, sig))
+        mode = MODES[v["mode"]]
+        gran = v["gran"]
+        if v["ports"] == "rw":
+            p = mem.get_port(write_capable=True, async_read=v.get("async", False), has_re=v["re"], we_granularity=gran, mode=mode)
+            self.specials += p
+            self.comb += [p.adr.eq(inp("adr", len(p.adr), amenu)), p.dat_w.eq(inp("dat_w", width, dvals)),
+                          p.we.eq(inp("we", len(p.we), list(range(1 << len(p.we)))))]
+            if v["re"]:
+                self.comb += p.re.eq(inp("re", 1, [0, 1]))
+            out("dat_r", p.dat_r)
+        else:
+            wp = mem.get_port(write_capable=True, we_granularity=gran, mode=MODES[v.get("wmode", "wf")])
+            rp = mem.get_port(async_read=v.get("async", False), has_re=v["re"], mode=mode, clock_domain="b" if two else "sys")
+            self.specials += wp, rp
+            self.comb += [wp.adr.eq(inp("wadr", len(wp.adr), amenu)), wp.dat_w.eq(inp("dat_w", width, dvals)),
+                          wp.we.eq(inp("we", len(wp.we), list(range(1 << len(wp.we))))),
+                          rp.adr.eq(inp("radr", len(rp.adr), amenu))]
+            if v["re"]:
+                self.comb += rp.re.eq(inp("re", 1, [0, 1]))
+            out("w_dat_r", wp.dat_r)
+            out("r_dat_r", rp.dat_r)
+
+    def info(self):
+        ios = set(self.inputs)
+        inputs = list(self.inputs)
+        menus = list(self.menus)
+        for cd in self.cds:
+            ios |= {cd.clk, cd.rst}
+        return dict(ios=ios, clocks=tuple(cd.name for cd in self.cds), clock_domains=list(self.cds), inputs=inputs, menus=menus,
+                    observe=list(self.obs), memories=[self.mem])
+
+
+def mem_variants(tier):
+    V = {}
+    for mode in ("wf", "rf", "nc"):
+        for gran in (0, 4):
+            for re in (False, True):
+                V[f"rw.{mode}.g{gran}.re{int(re)}"] = dict(ports="rw", mode=mode, gran=gran, re=re, init="short", depth=2 if gran else 4)
+    for gran in (0, 4):
+        V[f"rw.async.g{gran}"] = dict(ports="rw", mode="wf", gran=gran, re=False, init="short", depth=2 if gran else 4, **{"async": True})
+    for mode in ("wf", "rf"):
+        V[f"dual.{mode}"] = dict(ports="dual", mode=mode, gran=0, re=False, init="short", depth=4)
+        V[f"2clk.{mode}"] = dict(ports="2clk", mode=mode, gran=0, re=False, init="short", depth=4)
+    V["dual.async"] = dict(ports="dual", mode="wf", gran=0, re=False, init="short", depth=4, **{"async": True})
+    V["dual.wf.re1"] = dict(ports="dual", mode="wf", gran=0, re=True, init="short", depth=4)
+    V["2clk.async"] = dict(ports="2clk", mode="wf", gran=0, re=False, init="short", depth=4, **{"async": True})
+    V["2clk.wf.re1"] = dict(ports="2clk", mode="wf", gran=0, re=True, init="none", depth=2)
+    V["rw.wf.initnone"] = dict(ports="rw", mode="wf", gran=0, re=False, init="none", depth=4)
+    V["rw.rf.initfull"] = dict(ports="rw", mode="rf", gran=0, re=False, init="full", depth=4)
+    V["rw.wf.w6"] = dict(ports="rw", mode="wf", gran=0, re=False, init="full", depth=4, width=6)
+    V["rw.wf.w12g4"] = dict(ports="rw", mode="wf", gran=4, re=False, init="full", depth=2, width=12)
+    V["rw.nc.d3"] = dict(ports="rw", mode="nc", gran=0, re=False, init="full", depth=3)
+    V["dual.wnc.rf"] = dict(ports="dual", mode="rf", wmode="nc", gran=0, re=False, init="short", depth=4)
+    return V
+
+
+def mem_program(name):
+    v = mem_variants("thorough")[name]
+
+    def mk():
+        m = MemProg(v)
+        return m, m.info()
+    return mk
